@@ -1,25 +1,11 @@
 import Jose.Jwk
 import Jose.Driver.Prims
 import Jose.Driver.B64
+import Jose.Driver.Pure
 namespace Jose.Driver
 open Jose
 
-def jwkOps : List (String × (Json → Json)) := [
-  ("jwk.prm", fun a => .obj [("r", .bool (Jwk.prm (a.get? "jwk") (argBool a "req" false) (argStr? a "op")))]),
-  ("jwk.pub", fun a =>
-    match a.get? "jwk" with
-    | none => .obj [("ok", .bool false), ("jwk", .null)]
-    | some j =>
-      let (j', ok) := Jwk.pub j
-      if ok then
-        let (j2, ok2) := Jwk.pub j'
-        .obj [("ok", .bool true), ("jwk", j'), ("again_same", .bool (ok2 && Json.equal j2 j'))]
-      else .obj [("ok", .bool false), ("jwk", j')]),
-  ("jwk.eql", fun a =>
-    match a.get? "a", a.get? "b" with
-    | some x, some y => .obj [("r", .bool (Jwk.eql x y))]
-    | some x, none => .obj [("r", .bool (Jwk.eql x .null))]
-    | _, _ => .obj [("r", .bool false)]),
+def jwkOps : List (String × (Json → Json)) := jwkPureOps ++ [
   ("jwk.thp", fun a =>
     match a.get? "jwk", argStr? a "alg" with
     | some j, some alg => optJson (Jwk.thp realPrims j alg)
